@@ -115,6 +115,9 @@ class SymWorld:
         f.__name__ = f.__qualname__ = mangled
         f.__module__ = symfns.__name__
         setattr(symfns, mangled, f)
+        if name.startswith('W:'):
+            # a functools.wraps-style decorator around the function `name[2:]`: another function, same `__wrapped__`
+            f.__wrapped__ = self.fn(name[2:], params=params)
         self.fns[key] = f
         self.names[id(f)] = name
         return f
